@@ -38,6 +38,36 @@ def history(rng, length):
         elif r < .22:
             ops.append({'op': 'terminate'})
             mops.append('T')
+        elif r < .34 and not open_gen:
+            # a batch of apply_async submissions: settles task by task, or worker_init fails and the pool is flagged as failed
+            p += 1
+            k = rng.randint(1, 5)
+            op = {'op': 'apply_batch', 'tasks': [{'idx': i} for i in range(k)], 'dur': {'kind': 'map', 'map': {}, 'default': rng.choice([0.0, 0.01])},
+                  'get_timeout': 30}
+            w = rng.random()
+            out = 'settled'
+            if w < .25:
+                op['fail'] = {'at': sorted(rng.sample(range(k), rng.randint(1, min(2, k)))), 'exc': rng.choice(['ValueError', 'Custom', 'Wrap'])}
+            elif w < .4 and pool['start_method'] == 'fork':
+                op['task_timeout'] = 0.2
+                op['dur']['map'][str(rng.randrange(k))] = 30.0
+            elif w < .6:
+                op['init'] = True
+                op['fail'] = {'init': 'all', 'exc': rng.choice(['ValueError', 'KeyError'])}
+                out = 'poolfailed'
+            elif w < .7:
+                op['init'] = True
+            ops.append(op)
+            mops.append('A:%d:%s:0:-' % (p, out))
+        elif r < .40 and not open_gen:
+            # a call that is rejected while its arguments are validated
+            p += 1
+            kind = rng.choice(['map', 'map_unordered', 'imap', 'imap_unordered'])
+            ops.append({'op': kind, 'n': rng.randint(2, 6), 'chunk_size': 1, 'elem': 'scalar', 'input': rng.choice(['list', 'list', 'nd']) if kind in ('map', 'imap') else 'list',
+                        'bad_arg': rng.choice(['chunk_size', 'n_splits', 'max_tasks_active', 'worker_lifespan', 'task_timeout']), 'expect_rejected': True})
+            if ops[-1]['bad_arg'] == 'n_splits':
+                ops[-1].pop('chunk_size')
+            mops.append('C:%d:%d:rejected:0:-' % (kind in ('map', 'imap'), p))
         else:
             p += 1
             kind = rng.choice(['map', 'map_unordered', 'imap', 'imap_unordered'])
@@ -122,6 +152,9 @@ def run(chk):
             # … and one that was closed early may have finished internally before it was closed (then nothing is terminated)
             if ':closed:' in m and oo.get('outcome') == 'ok' and not oo['control']['exception_thrown']:
                 mops[k] = m.replace(':closed:', ':ok:')
+            # worker_init of an apply batch only runs when this batch started the workers (running workers are used as they are)
+            if ':poolfailed:' in m and not any(c[0] == k and c[1] == 'init' for c in o.get('calls', [])):
+                mops[k] = m.replace(':poolfailed:', ':settled:')
         lines.append('hist ops=' + pre + ';'.join(mops))
         refs.append((sc, o, 1 if pre else 0))
     for line, res, (sc, o, skip) in zip(lines, drv.run(lines), refs):
@@ -130,11 +163,18 @@ def run(chk):
             chk.mismatch('history model rejected the operations', {'scenario': sc, 'line': line}, 'ops', res)
             continue
         states = res[3:].split('/')[skip:]
+        dirty = False
         for opi, (oo, m) in enumerate(zip(o['ops'], states)):
             mt, f = model_tok(m)
             it = snap_tok(oo['control'])
             ok = it == mt
-            if ok and f['run'] == '0':
+            # apply submissions advance the chunk numbering by amounts that depend on the schedule: the numbering is compared again
+            # once a map-family call has run (which has to start from 0, see C16)
+            if sc['ops'][opi]['op'] == 'apply_batch':
+                dirty = True
+            elif sc['ops'][opi]['op'] in oracles.MAPS and not sc['ops'][opi].get('expect_rejected') and f['run'] == '0':
+                dirty = False
+            if ok and f['run'] == '0' and not dirty:
                 ok = ((oo['control']['task_idx'] or 0) == int(f['ti'])) and (len(oo['control']['last_completed']) == int(f['lc']))
             if not ok:
                 chk.mismatch('control state after operation %d differs from Mpire.History' % opi,
@@ -143,6 +183,11 @@ def run(chk):
                 break
         # a failed call must surface its own error, never a foreign one; later successful calls are checked by the C01/C02 oracles above
         for opi, (op, oo) in enumerate(zip(sc['ops'], o['ops'])):
+            if op.get('expect_rejected'):
+                if oo.get('outcome') != 'raise' or (oo.get('exc') or {}).get('type') not in ('TypeError', 'ValueError'):
+                    chk.violation('invalid_arguments_rejected', {'scenario': sc}, {'op': opi, 'outcome': oo.get('outcome'), 'raised': oo.get('exc')},
+                                  'a call with an invalid argument is rejected with TypeError/ValueError', input_class='not_rejected')
+                continue
             if op['op'] in oracles.MAPS and not op.get('fail') and oo.get('outcome') == 'raise':
                 et = (oo.get('exc') or {}).get('type')
                 msg = str((oo.get('exc') or {}).get('args'))
